@@ -29,10 +29,11 @@ def build_bundle(desc):
     import numpy
     dsw = import_dsw()
     graph = desc["graph"]
-    accessor = gens.accessor_of(graph)
+    accessor = gens.accessor_of(graph, desc.get("layout"))
     bundle = {
         "k": graph["k"], "start": graph["start"], "accessor": accessor,
-        "message": gens.bits_of(desc["bits"]), "table": gens.table_of(desc["table"]),
+        "message": gens.bits_of(desc["bits"]),
+        "table": gens.relayout(gens.table_of(desc["table"]), desc.get("layout")),
         "mask": numpy.array([int(c) for c in desc["mask"]], dtype=bool if desc["mask_bool"] else int),
         "latter_map": shuffled_map(dsw.accessor_to_latter_map(accessor), desc.get("map_order")),
         "filter": gens.build_local_filter(desc["filter"]),
